@@ -3,6 +3,7 @@ package main
 import (
 	"encoding/json"
 	"fmt"
+	"os"
 	"reflect"
 	"strings"
 
@@ -577,6 +578,70 @@ func (h *hand) noise(k int) {
 	})
 	h.o.Emit(fmt.Sprintf("noise %d", k%5), "ok")
 	h.o.Count("engine.noise_calls")
+}
+
+// query: the read-only queries of the Game interface (and of its players) called on the game under test: GetEvent, GetStateJSON,
+// Dealer / SmallBlind / BigBlind, GetPlayerCount, GetPlayers, GetCurrentPlayer, the two counters, the offered-action queries,
+// PrintState, PrintPots.  A query is not an operation of the hand: the state must be exactly what it was (the model's answer is
+// its unchanged state), whatever the properties say about that state must still hold, and nothing may panic.
+func (h *hand) query(k int) {
+	if h.dead {
+		return
+	}
+	gs := h.g.GetState()
+	pre := copyState(gs)
+	stdout := os.Stdout
+	if f, err := os.OpenFile(os.DevNull, os.O_WRONLY, 0); err == nil {
+		os.Stdout = f
+		defer func() { f.Close() }()
+	}
+	_, pan := safely(func() error {
+		g := h.g
+		switch k % 4 {
+		case 0:
+			_ = g.GetEvent()
+			_, _ = g.GetStateJSON()
+			_ = g.GetPlayerCount()
+			_ = g.GetAlivePlayerCount()
+			_ = g.GetMovablePlayerCount()
+		case 1:
+			_ = g.Dealer()
+			_ = g.SmallBlind()
+			_ = g.BigBlind()
+			_ = g.GetCurrentPlayer()
+			for _, p := range g.GetPlayers() {
+				_ = p.State()
+			}
+		case 2:
+			for i := range gs.Players {
+				if p := g.Player(i); p != nil {
+					_ = g.GetAvailableActions(p)
+					_ = g.GetAllowedActions(p)
+					_ = p.CheckPosition("dealer")
+					_ = p.SeatIndex()
+				}
+			}
+		default:
+			_ = g.PrintState()
+			g.PrintPots()
+		}
+		return nil
+	})
+	os.Stdout = stdout
+	line := fmt.Sprintf("query %d", k%4)
+	if pan {
+		h.dead = true
+		h.o.Emit(line, "st err=panic")
+		h.o.Violate("C06", "panic", "a query of the game panicked: "+line)
+		return
+	}
+	h.o.Emit(line, gameStr("st", gs, "none"))
+	h.o.Count("engine.queries")
+	if !sameState(pre, gs) {
+		h.o.Violate("C04", "refused_no_effect", line+": a read-only query changed the state of the hand")
+		h.o.Violate("C14", "cards_stable", line+": a read-only query changed the state of the hand (cards once dealt never change)")
+		h.o.Violate("C07", "resume_state", line+": a read-only query changed the in-memory state (same deck, same operations, another state)")
+	}
 }
 
 // view: the redacted state for one seat ("obs" = the observer) (C15).
